@@ -58,6 +58,9 @@ Proof.
 Qed.
 Lemma safeT_emit idx v : good v -> safeT (emit idx v) (fun _ => True).
 Proof. intros H. simpl. split; [trivial|]. constructor; [exact H|constructor]. Qed.
+(* option::apply: a callback event, or the assertion stop when the handler is null -- never a call through null *)
+Lemma safeT_apply idx o v : good v -> safeT (apply_opt idx o v) (fun _ => True).
+Proof. intros H. unfold apply_opt. destruct (o_has_fn o); [apply safeT_emit; exact H|simpl; constructor]. Qed.
 
 Lemma good_null : good VNull.
 Proof. split; simpl; trivial. Qed.
@@ -98,13 +101,13 @@ Proof.
   - destruct (o_has_arg o); [apply safeT_ret; trivial|].
     eapply safeT_bind; [apply eq_safe; [exact Ho|exact Hg]|]. intros e _. cbv beta.
     destruct (negb e); [apply safeT_ret; trivial|].
-    eapply safeT_bind; [apply safeT_emit; apply good_null|]. intros _ _. apply safeT_ret; trivial.
+    eapply safeT_bind; [apply safeT_apply; apply good_null|]. intros _ _. apply safeT_ret; trivial.
   - destruct (negb (o_has_arg o)); [apply safeT_ret; trivial|].
     eapply safeT_bind; [apply sub_safe; exact Hg|]. intros name (Hn & _). cbv beta.
     eapply safeT_bind; [apply sub_safe; exact Hg|]. intros val (Hval & _). cbv beta.
     eapply safeT_bind; [apply eq_safe; [exact Ho|exact Hn]|]. intros e _. cbv beta.
     destruct (negb e); [apply safeT_ret; trivial|].
-    eapply safeT_bind; [apply safeT_emit; exact Hval|]. intros _ _. apply safeT_ret; trivial.
+    eapply safeT_bind; [apply safeT_apply; exact Hval|]. intros _ _. apply safeT_ret; trivial.
 Qed.
 
 Lemma try_all_safe arg idx opts : good arg -> Forall valid_opt opts -> safeT (try_all m sub_string arg idx opts) (fun _ => True).
@@ -159,9 +162,9 @@ End Safe.
 (* ---- script level: exact-size command line in buffer 0, option names in buffers 1.. *)
 Lemma opt_table_mem tbl k :
   Forall (fun o => exists id n, o_name o = V id 0 (N.of_nat (length n)) /\ (k <= id)%nat /\
-                                mem_get (opt_mem (map fst tbl) k) id = Some n) (opt_table tbl k).
+                                mem_get (opt_mem (map te_name tbl) k) id = Some n) (opt_table tbl k).
 Proof.
-  revert k; induction tbl as [|[n h] tbl IH]; intros k; cbn [opt_table map fst opt_mem]; constructor.
+  revert k; induction tbl as [|[[n h] f] tbl IH]; intros k; cbn [opt_table map te_name fst opt_mem]; constructor.
   - exists k, n. cbn [o_name mem_get]. rewrite Nat.eqb_refl. repeat split. lia.
   - eapply Forall_impl; [|apply (IH (S k))]. intros o (id & n' & E & Hk & Hm). exists id, n'.
     split; [assumption|]. split; [lia|]. cbn [mem_get]. destruct (Nat.eqb_spec k id); [lia|]. exact Hm.
@@ -175,13 +178,13 @@ Qed.
 Definition cl_view (cl : list byte) (null_cl : bool) : view := if null_cl then VNull else V 0 0 (N.of_nat (length cl)).
 
 (* an item of a run over the n-byte command line cl *)
-Definition run_item_ok (tbl : list (list byte * bool)) (cl : list byte) (it : item) : Prop :=
+Definition run_item_ok (tbl : list tentry) (cl : list byte) (it : item) : Prop :=
   match it with
   | IRead r => in_mem (run_mem tbl cl) r
   | IApply _ v => v = VNull \/ exists off len, v = V 0 off len /\ off + len <= N.of_nat (length cl)
   end.
 
-Lemma run_cmdline_safe (tbl : list (list byte * bool)) (cl : list byte) (null_cl : bool) :
+Lemma run_cmdline_safe (tbl : list tentry) (cl : list byte) (null_cl : bool) :
   N.of_nat (length cl) < W64 ->
   match run_cmdline tbl cl null_cl with
   | (Ok _, items) => Forall (run_item_ok tbl cl) items
@@ -216,13 +219,13 @@ Proof. intros Hv Hl Ho. apply (parse_arguments_safe m cl cl opts eq_refl Hv Hl H
 
 (* the assertion stop is real: an unbalanced quote ends in the hook (and nowhere else) *)
 Definition d32_cl : list byte := [34; 97; 98; 99].     (* a quote, then abc: the opening quote only *)
-Lemma unbalanced_quote_stops : fst (run_cmdline [([97], true)] d32_cl false) = AssertStop a_sub_string.
+Lemma unbalanced_quote_stops : fst (run_cmdline [([97], true, true)] d32_cl false) = AssertStop a_sub_string.
 Proof. vm_compute. reflexivity. Qed.
 
 (* D32, the code before the repair: with the wrapping bound check from + size <= _length (mod 2^64) the same
    unbalanced quote reads outside the 4-byte buffer *)
 Lemma parse_wrapping_check_refuted :
-  fst (run_cmdline_with (sub_string_with chk_wrapping) [([97], true)] d32_cl false) = UB oob.
+  fst (run_cmdline_with (sub_string_with chk_wrapping) [([97], true, true)] d32_cl false) = UB oob.
 Proof. lazy. reflexivity. Qed.
 
 (* as_number<T>: the to_number call inside the callback runs on a view handed out by parse_arguments, so it is
@@ -239,3 +242,10 @@ Proof.
   all: destruct (StrNumProofs.to_number_total_safe (run_mem tbl cl) t v Hv) as (r & reads & E & _ & _ & Hm).
   all: exists r, reads; split; assumption.
 Qed.
+
+(* a reserved option (null handler) named on the command line stops in option::apply's assertion *)
+Lemma null_handler_stops :
+  fst (run_cmdline [([100], false, false)] [100] false) = AssertStop a_option_apply /\
+  fst (run_cmdline [([99], true, false)] [120; 32; 99; 61; 49; 32; 121] false) = AssertStop a_option_apply /\
+  fst (run_cmdline [([99], true, false)] [120; 32; 99; 32; 121] false) = Ok tt.
+Proof. vm_compute. repeat split; reflexivity. Qed.
